@@ -9,10 +9,13 @@ def step (l : Line) : String :=
     { flow := str l "flow", status := nat l "o.status", panicked := bool l "o.panic", locationError := bool l "o.locerr",
       locationRegistered := bool l "o.locreg", hasRedirect := bool l "o.redirect", hasCode := bool l "o.code", hasToken := bool l "o.token",
       hasClaims := bool l "o.claims", active := bool l "o.active" }
-  let v := _root_.C10.judge (bool l "hit") o
-  -- model: with the fault inside the request's call sequence the handler answers with an error (c10_fail_closed)
-  let model := if bool l "hit" then "error" else "no-fault"
-  let observed := if !bool l "hit" then "no-fault" else if v.isNone then "error" else "not-closed"
-  s!"case={str l "case"} class={str l "flow"}:{str l "router"}:{str l "cred"}:{if bool l "hit" then "fault@" ++ (str l "failed").takeWhile (· != '(') else "beyond"}:{nat l "o.status"} model={model} observed={observed} monitor={showMon v} agree={if model == observed then 1 else 0}"
+  -- does the fault schedule amount to "a storage call failed" (Spec: documented protocol answers are not failures)
+  let fmethod := ((str l "failed").takeWhile (· != '(')).toString
+  let counts := _root_.C10.faultCounts fmethod (str l "kind") (nat l "nfail") (nat l "mok") (str l "sched" == "all")
+  let v := _root_.C10.judge counts o
+  -- model: with the fault inside the request's call sequence the handler answers with an error (c10_fail_closed_handlers)
+  let model := if counts then "error" else if bool l "hit" then "protocol-answer" else "no-fault"
+  let observed := if !counts then model else if v.isNone then "error" else "not-closed"
+  s!"case={str l "case"} class={str l "flow"}:{str l "router"}:{str l "cred"}:{str l "sched"}:{str l "kind"}:{if bool l "hit" then "fault@" ++ fmethod else "beyond"}:{nat l "o.status"} model={model} observed={observed} monitor={showMon v} agree={if model == observed then 1 else 0}"
 
 end Drv.C10
